@@ -611,3 +611,51 @@ Proof.
   - now apply commaless_line.
   - now apply comment_line.
 Qed.
+
+(* ------------------------------------------------------------------ the proposed repair of the client's append *)
+Lemma complete_cons c v : complete v = true -> v <> "" -> complete (String c v) = true.
+Proof. intros H N. cbn. destruct v; [congruence | exact H]. Qed.
+
+Lemma split_complete u : exists v w, u = v ++ w /\ complete v = true /\ nochar LF w = true.
+Proof.
+  induction u as [|c r (v & w & E & Cv & Nw)]; [exists "", ""; repeat split|]. subst r.
+  destruct (Ascii.eqb c LF) eqn:Ec.
+  - exists (String c v), w. repeat split; [|exact Nw]. destruct v; [cbn; exact Ec | now apply complete_cons].
+  - destruct v as [|a v'].
+    + exists "", (String c w). repeat split. cbn. now rewrite Ec, Nw.
+    + exists (String c (String a v')), w. repeat split; [|exact Nw]. now apply complete_cons.
+Qed.
+
+Lemma complete_app v w : complete v = true -> complete w = true -> complete (v ++ w) = true.
+Proof. induction v as [|c r IH]; [now intros|]. intros Hv Hw. cbn [append]. destruct r as [|a r'].
+  - cbn in *. destruct w; [cbn; exact Hv | exact Hw].
+  - cbn [complete is_empty] in Hv. apply complete_cons; [now apply IH | discriminate]. Qed.
+
+Lemma complete_line w : complete (w ++ String LF "") = true.
+Proof. induction w as [|c r IH]; [reflexivity|]. cbn [append]. apply complete_cons; [exact IH | destruct r; discriminate]. Qed.
+
+Lemma parse_lines_snoc_lf u : parse_lines (readlines (u ++ String LF "")) = parse_lines (readlines u).
+Proof.
+  destruct (split_complete u) as (v & w & -> & Cv & Nw). rewrite sapp_assoc, (readlines_app v (w ++ String LF "") Cv), (readlines_app v w Cv).
+  rewrite !parse_lines_app. f_equal. rewrite (readlines_line w "" Nw), (readlines_last w Nw). cbn [readlines].
+  destruct w as [|c w'].
+  - change ("" ++ String LF "") with (String LF ""). unfold parse_lines. cbn [flat_map is_empty].
+    now rewrite (blank_line (String LF "") eq_refl).
+  - unfold parse_lines. cbn [flat_map is_empty]. now rewrite (parse_line_eol (String c w')).
+Qed.
+
+Lemma client_override_repaired base params k :
+  dict_get k (read_text (client_text_repaired base params)) =
+  match dict_get k (read_text (cat (map param_line params))) with
+  | Some e => Some e
+  | None => dict_get k (read_text base)
+  end.
+Proof.
+  unfold client_text_repaired. destruct (complete (universal base)) eqn:T.
+  - exact (client_override base params k T).
+  - unfold read_text, universal at 1.
+    assert (NC : nochar CR (universal base ++ String LF "") = true) by (rewrite nochar_app; unfold universal; now rewrite univ_nocr).
+    rewrite univ_nocr_app by exact NC.
+    rewrite readlines_app by apply complete_line.
+    rewrite last_wins. unfold read_lines, universal. now rewrite parse_lines_snoc_lf.
+Qed.
